@@ -143,6 +143,8 @@ func run(seed int64, n int, dir string, _ []string) {
 	commitPaths(o, scratch)
 	idempotent(o, bin, scratch)
 	interruptedCommit(o, hc.NewGen(seed+104729), bin, scratch)
+	outFile(o, bin, scratch)
+	parallelSubquery(o, hc.NewGen(seed+1299709), bin, scratch)
 	startUp(o, hc.NewGen(seed+7919), bin, scratch)
 
 	preload := func(p prog, d string) {
